@@ -57,12 +57,14 @@ def run_history(ctx, ops, record=True):
             if bad:
                 ctx.violation(f"after {op['op']}: circuit {k}: {bad}", {"ops": done})
                 return False, done
-        if op["op"] in L.READ_ONLY or (isinstance(r_py, str) and r_py.startswith("ERR")):
-            for k, d in before.items():
-                if k in store and L.dumps_equal(d, L.py_dump_circuit(store[k])) is not None:
-                    why = L.dumps_equal(d, L.py_dump_circuit(store[k]))
-                    ctx.violation(f"{op['op']} (read-only or rejected) changed circuit {k}: {why}", {"ops": done})
-                    return False, done
+        rejected = isinstance(r_py, str) and r_py.startswith("ERR")
+        may_change = set() if rejected else L.mutated_ids(op)
+        for k, d in before.items():
+            if k in store and k not in may_change and L.dumps_equal(d, L.py_dump_circuit(store[k])) is not None:
+                why = L.dumps_equal(d, L.py_dump_circuit(store[k]))
+                kind = "rejected" if rejected else ("read-only" if op["op"] in L.READ_ONLY else "out-of-place")
+                ctx.violation(f"{op['op']} ({kind}) changed circuit {k}: {why}", {"ops": done})
+                return False, done
         # ---- correspondence
         same_r = (r_py == r_mo) or (r_py is None and r_mo is None)
         if not same_r and op["op"] == "ro_entangled":
@@ -135,8 +137,9 @@ def search(ctx, broken):
                 if bad:
                     ctx.violation(f"after {op['op']}: circuit {k}: {bad}", {"ops": done})
                     return
-            if op["op"] in L.READ_ONLY or (isinstance(r, str) and r.startswith("ERR")):
-                for k, d in before.items():
-                    if k in store and L.dumps_equal(d, L.py_dump_circuit(store[k])) is not None:
-                        ctx.violation(f"{op['op']} (read-only or rejected) changed circuit {k}", {"ops": done})
-                        return
+            rejected = isinstance(r, str) and r.startswith("ERR")
+            may_change = set() if rejected else L.mutated_ids(op)
+            for k, d in before.items():
+                if k in store and k not in may_change and L.dumps_equal(d, L.py_dump_circuit(store[k])) is not None:
+                    ctx.violation(f"{op['op']} changed circuit {k} which it must leave as it was", {"ops": done})
+                    return
